@@ -13,11 +13,13 @@ Open Scope N_scope.
    returns (never DFuel), has written exactly the datagrams whose records lie completely before the cut, counted
    their bytes, and reports: the read error, else io.ErrUnexpectedEOF (3) iff the cut is inside a record. *)
 Theorem C12_udp_terminates_at_any_cut :
-  forall (bw : option N) (ds : list dgram) (cut : nat) (cuts : list nat) (e : N) (wd : bool) (fuel : nat),
+  forall (bw : option N) (ds : list dgram) (cut : nat) (cuts : list nat) (e : N) (wd : bool) (emp : list bool) (fuel : nat),
   local_path bw ->     (* the local side is written through the fallback loop OR the sendmmsg batch writer *)
   Forall (valid_dgram UdpMaxRecord) ds ->
-  (length (firstn cut (encode_all ds)) < fuel)%nat ->
-  exists w, deframe_on bw fuel (ust0 (firstn cut (encode_all ds)) cuts e wd None)
+  (* emp: ANY pattern of empty (0, nil) tunnel reads interleaved with the chunks; each costs one more iteration.
+     The result below does not mention emp: empty reads are no-ops *)
+  (length (firstn cut (encode_all ds)) + length emp < fuel)%nat ->
+  exists w, deframe_on bw fuel (ust0e (firstn cut (encode_all ds)) cuts e wd emp None)
             = DDone w (final_err 0 e (tail_after cut ds)) /\
             w_log w = complete_before cut ds /\ w_bytes w = sum_len (complete_before cut ds).
 Proof. exact c12_deframe_any_cut. Qed.
@@ -28,11 +30,11 @@ Print Assumptions C12_udp_terminates_at_any_cut.
    chunking of their concatenation on the other side, exactly those datagrams come out, in order,
    boundaries preserved, with no error and matching byte counters. *)
 Theorem C12_udp_roundtrip :
-  forall (bw : option N) (evs : list uev) (cuts : list nat) (wd : bool) (fuel : nat),
+  forall (bw : option N) (evs : list uev) (cuts : list nat) (wd : bool) (emp : list bool) (fuel : nat),
   local_path bw ->
   Forall (valid_dgram UdpMaxRecord) (ev_dgrams evs) ->
-  (length (concat (e_out (encode_events UdpBatchBufSize evs))) < fuel)%nat ->
-  exists w, deframe_on bw fuel (ust0 (concat (e_out (encode_events UdpBatchBufSize evs))) cuts 0 wd None) = DDone w 0 /\
+  (length (concat (e_out (encode_events UdpBatchBufSize evs))) + length emp < fuel)%nat ->
+  exists w, deframe_on bw fuel (ust0e (concat (e_out (encode_events UdpBatchBufSize evs))) cuts 0 wd emp None) = DDone w 0 /\
             w_log w = ev_dgrams evs /\ w_bytes w = e_sent (encode_events UdpBatchBufSize evs).
 Proof. exact c12_udp_roundtrip. Qed.
 Print Assumptions C12_udp_roundtrip.
@@ -49,10 +51,10 @@ Print Assumptions C12_udp_encoder_stream.
 
 (* termination on ARBITRARY tunnel bytes (hostile / malformed included) *)
 Theorem C12_udp_deframe_total :
-  forall (bw : option N) (s : list byte) (cuts : list nat) (e : N) (wd : bool) (fuel : nat),
+  forall (bw : option N) (s : list byte) (cuts : list nat) (e : N) (wd : bool) (emp : list bool) (fuel : nat),
   local_path bw ->
-  (length s < fuel)%nat ->
-  exists w err, deframe_on bw fuel (ust0 s cuts e wd None) = DDone w err /\
+  (length s + length emp < fuel)%nat ->
+  exists w err, deframe_on bw fuel (ust0e s cuts e wd emp None) = DDone w err /\
                 w_log w = fst (fst (split_all UdpMaxRecord s)).
 Proof. exact c12_deframe_total. Qed.
 Print Assumptions C12_udp_deframe_total.
@@ -109,9 +111,10 @@ Proof. exact c12_premises_satisfiable. Qed.
 Print Assumptions C12_premises_satisfiable.
 
 (* ---- TCP: iocopy.Bidirectional as three threads (A->B copier, B->A copier, main) over Threads.v.
-   tcp_run_w cfgA cfgB sA sB cutsA cutsB endA endB wdA wdB sched = the state after ANY schedule `sched`, where
+   tcp_run_w cfgA cfgB sA sB cutsA cutsB endA endB wdA wdB empA empB sched = the state after ANY schedule `sched`, where
    endpoint A sends the bytes sA under chunk oracle cutsA and ends with kind endA (0 = EOF, else an error,
-   possibly delivered with the last chunk), likewise B, both endpoints accept every write, and endpoint X is
+   possibly delivered with the last chunk) and interleaves the empty (0, nil) reads empA with its chunks, likewise B
+   — the conclusions below do not mention empA / empB: empty reads are no-ops —, both endpoints accept every write, and endpoint X is
    handed to the relay as cfgX : wcfg — a conn with / without CloseWrite, or iocopy.NewReadWriteCloser
    [WithCloseWrite](reader, writer, closeFunc[, closeWriteFunc]) in any configuration (closeWriteFunc set or not,
    wrapped writer with or without CloseWrite, closeFunc set or nil).  tryCloseWrite + the wrapper's
@@ -135,8 +138,8 @@ Print Assumptions C12_wrapper_dispatch_table.
    been written to B is a prefix of what A sent and vice versa (in order, nothing invented), and no
    Read/Write has hit an endpoint that was already closed by the relay *)
 Theorem C12_tcp_delivered_is_prefix :
-  forall cfgA cfgB sA sB cutsA cutsB endA endB wdA wdB sched,
-  let s := tcp_run_w cfgA cfgB sA sB cutsA cutsB endA endB wdA wdB sched in
+  forall cfgA cfgB sA sB cutsA cutsB endA endB wdA wdB empA empB sched,
+  let s := tcp_run_w cfgA cfgB sA sB cutsA cutsB endA endB wdA wdB empA empB sched in
   (exists x, sA = d_out (sh_d0 (fst s)) ++ x) /\ (exists y, sB = d_out (sh_d1 (fst s)) ++ y) /\
   sh_io_after_close (fst s) = 0.
 Proof. exact c12_tcp_prefix. Qed.
@@ -148,8 +151,8 @@ Print Assumptions C12_tcp_delivered_is_prefix.
    as its configuration dispatches (ncw / ncwf) and each endpoint was closed exactly ncl times (once, or
    never when closeFunc is nil) *)
 Theorem C12_tcp_complete_when_returned :
-  forall cfgA cfgB sA sB cutsA cutsB endA endB wdA wdB sched,
-  let s := tcp_run_w cfgA cfgB sA sB cutsA cutsB endA endB wdA wdB sched in
+  forall cfgA cfgB sA sB cutsA cutsB endA endB wdA wdB empA empB sched,
+  let s := tcp_run_w cfgA cfgB sA sB cutsA cutsB endA endB wdA wdB empA empB sched in
   sh_ret (fst s) = true ->
   d_out (sh_d0 (fst s)) = sA /\ d_out (sh_d1 (fst s)) = sB /\
   d_bytes (sh_d0 (fst s)) = lenN sA /\ d_bytes (sh_d1 (fst s)) = lenN sB /\
@@ -164,8 +167,8 @@ Print Assumptions C12_tcp_complete_when_returned.
    half-close performed by the direction that finished first did not close the other direction's path — and
    that half-close reached its destination exactly as the destination's configuration dispatches *)
 Theorem C12_tcp_half_close_never_closes_reverse_path :
-  forall cfgA cfgB sA sB cutsA cutsB endA endB wdA wdB sched p0 p1 pm,
-  let s := tcp_run_w cfgA cfgB sA sB cutsA cutsB endA endB wdA wdB sched in
+  forall cfgA cfgB sA sB cutsA cutsB endA endB wdA wdB empA empB sched p0 p1 pm,
+  let s := tcp_run_w cfgA cfgB sA sB cutsA cutsB endA endB wdA wdB empA empB sched in
   snd s = [(0%nat, p0); (1%nat, p1); (2%nat, pm)] -> (p0 <> PDone \/ p1 <> PDone) ->
   sh_closed_a (fst s) = false /\ sh_closed_b (fst s) = false /\
   sh_ncl_a (fst s) = 0 /\ sh_ncl_b (fst s) = 0 /\
@@ -178,8 +181,8 @@ Print Assumptions C12_tcp_half_close_never_closes_reverse_path.
    writer without CloseWrite, closeFunc) — A reaches EOF and half-closes B first, B answers afterwards (ending
    in an error delivered with its data); the schedule reaches the returned state with everything delivered *)
 Theorem C12_tcp_returns_example :
-  let s := tcp_run_w (wrap_cfg 0) (wrap_cfg 2) [1; 2; 3] [4; 5] [1%nat; 1%nat] [] 0 1 false true
-             ([0; 0; 0; 0; 0; 0; 2; 1; 2; 1; 1; 1; 2; 2; 2; 2]%nat) in
+  let s := tcp_run_w (wrap_cfg 0) (wrap_cfg 2) [1; 2; 3] [4; 5] [1%nat; 1%nat] [] 0 1 false true [false; true; true] [true]
+             ([0; 0; 0; 0; 0; 0; 0; 0; 2; 1; 2; 1; 1; 1; 1; 2; 2; 2; 2]%nat) in
   sh_ret (fst s) = true /\ d_out (sh_d0 (fst s)) = [1; 2; 3] /\ d_out (sh_d1 (fst s)) = [4; 5] /\
   d_err (sh_d0 (fst s)) = 0 /\ d_err (sh_d1 (fst s)) = 1 /\
   d_cw (sh_d0 (fst s)) = 0 /\ sh_ncl_b (fst s) = 1.
@@ -190,10 +193,10 @@ Print Assumptions C12_tcp_returns_example.
    state.  The correspondence run exercises it (the model must report sh_ret under the generated fair
    schedules, the real code must return before the watchdog). *)
 Definition C12_tcp_termination_full_statement : Prop :=
-  forall cfgA cfgB sA sB cutsA cutsB endA endB wdA wdB sched,
-  (forall i, (i < 3)%nat -> (length sA + length sB + 8 <= count_occ Nat.eq_dec sched i)%nat) ->
-  sh_ret (fst (tcp_run_w cfgA cfgB sA sB cutsA cutsB endA endB wdA wdB
-                 (sched ++ concat (repeat [0; 1; 2]%nat (length sA + length sB + 8))))) = true.
+  forall cfgA cfgB sA sB cutsA cutsB endA endB wdA wdB empA empB sched,
+  (forall i, (i < 3)%nat -> (length sA + length sB + length empA + length empB + 8 <= count_occ Nat.eq_dec sched i)%nat) ->
+  sh_ret (fst (tcp_run_w cfgA cfgB sA sB cutsA cutsB endA endB wdA wdB empA empB
+                 (sched ++ concat (repeat [0; 1; 2]%nat (length sA + length sB + length empA + length empB + 8))))) = true.
 
 (* ---- UDP -> tunnel: who owns batchBuf.  The main loop (thread 0: Lock / read one datagram and frame it in place,
    with the size flushes / Unlock / final flush) and the 20 ms ticker goroutine (thread 1: Lock / take
